@@ -63,7 +63,7 @@ def run_shard(shard, tier, seed):
                  for i, x in enumerate(cur) if i % shard['parts'] == shard['part']]
         return direct_run(ID, cases, check_case)
     strat = st.fixed_dictionaries({'mol': molgen.mol_specs(max_atoms=12, corpus_w=6, curated_w=4, graph_w=4, literal_w=0, sym_w=1),
-                                   'graft': st.lists(st.integers(0, 2 ** 16), max_size=2), 'seed': st.integers(0, 2 ** 31),
+                                   'graft': st.lists(st.integers(0, 2 ** 16), max_size=3), 'seed': st.integers(0, 2 ** 31),
                                    'ops': st.lists(st.sampled_from(OPS), min_size=2, max_size=3, unique=True)})
     return hyp_run(ID, strat, check_case, max_examples=shard['n'], seed=seed * 1000 + shard['shard'])
 
@@ -112,7 +112,25 @@ def graft_groups(m, picks):
     """attach the input spelling of a documented pair (small ones) to a carbon with a free valence"""
     from chython import smiles
     pairs = [p for p in documented_pairs() if len(p[0]) <= 14 and '.' not in p[0] and '~' not in p[0]]
+    last = None  # (pair index, atom of the molecule that carries the previous copy's group)
+    kinds = []
     for p in picks:
+        if last is not None and p % 3 == 0:
+            # geminal instance: a second copy of the previous group on the same carrier atom (two matches of one rule that share
+            # their generic substituent atom)
+            idx, carrier = last
+            g = smiles(pairs[idx][0])
+            site = [n for n, a in g.atoms() if a.atomic_number == 6 and (a.implicit_hydrogens or 0) > 0]
+            if site and (m.atom(carrier).implicit_hydrogens or 0) > 0 and len(g._bonds[site[0]]) == 1 and \
+                    all(b.order == 1 for b in g._bonds[site[0]].values()):
+                kinds.append(shared_atom_kind(g, site[0]))
+                mp = {site[0]: carrier}
+                for n, at in g.atoms():
+                    if n != site[0]:
+                        mp[n] = m.add_atom(type(at)(at.isotope, charge=at.charge, is_radical=at.is_radical))
+                for x, y, b in g.bonds():
+                    m.add_bond(mp[x], mp[y], b.order)
+                continue
         cand = [n for n, a in m.atoms() if (a.implicit_hydrogens or 0) > 0 and a.atomic_number == 6 and a.hybridization == 1]
         if not cand or not pairs:
             return
@@ -129,6 +147,26 @@ def graft_groups(m, picks):
         for x, y, b in g.bonds():
             m.add_bond(mp[x], mp[y], b.order)
         m.add_bond(cand[p % len(cand)], mp[site[0]], 1)
+        last = (p % len(pairs), mp[site[0]])
+    return kinds
+
+
+def shared_atom_kind(g, site):
+    """role of the carrier atom in the rule that rewrites the documented spelling g, read from the rule tables (data): 'any' - it is
+    a generic substituent atom of the pattern (the tables say such atoms may be shared by several matches), 'named' - it is a
+    specific pattern atom (matches sharing it are processed one per call: "skip intersected groups"), 'outside' - not matched"""
+    from chython.algorithms.standardize import _groups
+    kind = 'outside'
+    for rules in (_groups.double_rules, _groups.single_rules):
+        for pattern, atom_fix, bonds_fix, any_atoms, is_tautomer in rules:
+            for mapping in pattern.get_mapping(g, automorphism_filter=False):
+                for pa, ma in mapping.items():
+                    if ma == site:
+                        if pa in any_atoms:
+                            kind = 'any' if kind != 'named' else kind
+                        else:
+                            kind = 'named'
+    return kind
 
 
 def check_case(case, rec):
@@ -140,10 +178,13 @@ def check_case(case, rec):
         rec.count(f'generator-reject:{e}')
         return
     grafted = False
+    geminal = []
     if case['graft']:
         try:
-            graft_groups(m, case['graft'])
+            geminal = graft_groups(m, case['graft']) or []
             grafted = True
+            for k in geminal:
+                rec.count(f'geminal-graft:carrier-is-{k}-atom-of-the-rule')
         except Exception:
             rec.count('generator-reject:graft')
             return
@@ -264,6 +305,17 @@ def check_case(case, rec):
         ok, changed2 = rec.guard(op, apply, op, y, ft)
         if not ok:
             return
+        if 'named' in geminal and op in ('standardize', 'canonicalize') and molgen.snapshot(y) != molgen.snapshot(x):
+            # two matches of one rule share a specific pattern atom: the rule loop handles one of them per call by design
+            # ("skip intersected groups"); claimed instead: repeated application reaches a fixed point
+            w = y.copy()
+            ok, _ = rec.guard(op, apply, op, w, ft)
+            if ok and molgen.snapshot(w) != molgen.snapshot(y) and canon_safe(w) != canon_safe(y):
+                rec.fail('idempotent', f'{label}: no fixed point after three applications: {str(x)!r} -> {str(y)!r} -> {str(w)!r}',
+                         sig='no-fixed-point')
+                return
+            rec.count('overlapping matches sharing a named atom: fixed point after repeated application (idempotence of one call not claimed)')
+            continue
         if molgen.snapshot(y) != molgen.snapshot(x) and (canon_safe(y) != canon_safe(x) or in_gap(x)) and not in_gap(x):
             rec.fail('idempotent', f'{label}: second application changes {str(x)!r} -> {str(y)!r}',
                      sig='vicinal-N-oxides' if vicinal_n_oxides(x) else ('two-donor-cation' if two_donor_cation(x) else op))
